@@ -6,16 +6,19 @@ rd.py:314-418, `_new_pathtail` rd.py:304-312), parameter validation and lifetime
 (`Registration.update_params` rd.py:154-239, `_set_timeout`/`refresh_timeout` rd.py:246-261,
 `delete` rd.py:241-244), the registration resource (`RegistrationDispatchSite.render`,
 `RegistrationResource.render_get/post/put/delete` rd.py:488-527) and the two lookup interfaces
-(rd.py:550-680) with equality filters.  Line numbers refer to the fixed file.
+(rd.py:550-680) with equality filters.  Line numbers refer to the file before round 4.
 
 The model follows the code *after* the five `fix:` commits of the C20 round (the new
 registration is created before the old one is deleted; an update with a body is refused before its
 parameters are applied; a given base always becomes explicit; a valueless base is refused; every
-lookup criterion is applied).
+lookup criterion is applied) and after the round-4 fix (a `base` that `urlsplit` refuses, and links
+that can not be resolved against the base, are refused with 4.00 before anything is changed).
 
 Conventions
-* strings are UTF-8 byte lists (`Str`); a query is the list of `key=value` Uri-Query options in
-  order; `vals k q` is `query_split(msg)[k]` (all values of `k`, in order);
+* strings are UTF-8 byte lists (`Str`); a query is the list of Uri-Query options in order, each
+  `key=value` (`some value`) or a bare `key` without `=` (`none`, Python's `None`, rd.py:74-77);
+  `vals k q` is `query_split(msg)[k]` (all values of `k`, in order).  Registration parameters and
+  link attributes carry such optional values too (`</x>;obs`, `?flag`);
 * a registration location `("reg", str(n), "")` is the number `n`;
 * time is a `Nat` number of ticks, `Cfg.tps` ticks per second; `lt` and the grace period are in
   seconds as in the code; a registration's timer fires at `refreshedAt + (lt + grace)·tps`;
@@ -24,15 +27,17 @@ Conventions
 * the mutable `Registration` object that both dicts reference is modelled by storing the value
   under its key in `byKey` and under its path in `byPath`; an in-place update rewrites both
   entries (that the two stay one map is theorem `C20_indexes_one_map`, not an assumption);
-* inputs the model does not cover (proxy mode, simple registration, pagination, wildcard and
-  valueless filters, explicit `anchor` attributes, bases that are not `scheme://authority`, exotic
+* inputs the model does not cover (proxy mode, simple registration, `page` / `count` with a value,
+  wildcard filters, explicit `anchor` attributes, bases that are not `scheme://authority`, exotic
   `lt` spellings) are refused by the driver (`out-of-model`), never guessed.
 -/
 namespace Aiocoap.Rd
 
 abbrev Str := List Nat
 abbrev Key := Str × Option Str
-abbrev Query := List (Str × Str)
+/-- the value of a Uri-Query option or link attribute; `none`: there was no `=` -/
+abbrev Val := Option Str
+abbrev Query := List (Str × Val)
 
 -- the literal strings of rd.py ------------------------------------------------------------
 def sEp : Str := [101, 112]                          -- "ep"
@@ -66,7 +71,7 @@ def aset (k : κ) (v : β) (l : List (κ × β)) : List (κ × β) := adel k l +
 end Assoc
 
 /-- all values of `k` in a query, in order: `query_split(msg).get(k, [])` (rd.py:61-81) -/
-def vals (k : Str) (q : Query) : List Str := (q.filter (fun e => decide (e.1 = k))).map (·.2)
+def vals (k : Str) (q : Query) : List Val := (q.filter (fun e => decide (e.1 = k))).map (·.2)
 
 /-- keys of a query in order of first appearance -/
 def firstKeys : Query → List Str
@@ -74,11 +79,11 @@ def firstKeys : Query → List Str
   | e :: q => e.1 :: (firstKeys q).filter (fun k => decide (k ≠ e.1))
 
 /-- `query_split`: key ↦ list of its values, keys in order of first appearance -/
-def group (q : Query) : List (Str × List Str) := (firstKeys q).map (fun k => (k, vals k q))
+def group (q : Query) : List (Str × List Val) := (firstKeys q).map (fun k => (k, vals k q))
 
 structure Link where
   href : Str
-  attrs : List (Str × Str)
+  attrs : List (Str × Val)
 deriving Repr, DecidableEq
 
 /-- A `CommonRD.Registration` (rd.py:114-152). -/
@@ -89,7 +94,7 @@ structure Reg where
   lt : Int                          -- `self.lt`
   base : Str                        -- `self.base`
   baseExplicit : Bool               -- `self.base_is_explicit`
-  params : List (Str × List Str)    -- `self.registration_parameters` (ep, d, and what an update added)
+  params : List (Str × List Val)    -- `self.registration_parameters` (ep, d, and what an update added)
   links : List Link                 -- `self.links`
   refreshedAt : Nat                 -- tick at which the running timer was started
 deriving Repr, DecidableEq
@@ -163,26 +168,71 @@ def parseInt (s : Str) : Option Int :=
   | 45 :: ds => if ds = [] then none else (parseDigits 0 ds).map (fun n => - Int.ofNat n)
   | ds => (parseDigits 0 ds).map Int.ofNat
 
-/-- `pop_single_arg` (rd.py:84-93) on the values of one key followed by a conversion:
-`ok none` absent, `error` for repeated values or a failed conversion -/
-def popSingle {α : Type} (vs : List Str) (conv : Str → Option α) : Except Nat (Option α) :=
+/-- `pop_single_arg` (rd.py:84-93) on the values of one key: `ok none` the key is absent,
+`ok (some v)` its only value (`v = none`: the option had no `=`; Python returns `None` for it as
+for an absent key, the callers tell the two apart by `key in query`), `error 400` (`BadRequest`)
+for repeated values -/
+def popSingle (vs : List Val) : Except Nat (Option Val) :=
   match vs with
   | [] => .ok none
-  | [v] => match conv v with
-    | some x => .ok (some x)
-    | none => .error 400
+  | [v] => .ok (some v)
   | _ => .error 400
+
+/-- `ep = pop_single_arg(…, "ep"); if ep is None: raise BadRequest` (rd.py:324-326): absent and
+valueless alike are refused -/
+def epOf (vs : List Val) : Except Nat Str :=
+  match popSingle vs with
+  | .error e => .error e
+  | .ok (some (some ep)) => .ok ep
+  | .ok _ => .error 400
+
+/-- `d = pop_single_arg(…, "d")` (rd.py:327): a valueless `d` is `None`, i.e. no sector (the
+option itself stays among the registration parameters and is listed) -/
+def dOf (vs : List Val) : Except Nat (Option Str) :=
+  match popSingle vs with
+  | .error e => .error e
+  | .ok (some v) => .ok v
+  | .ok none => .ok none
+
+/-- `int(pop_single_arg(…, "lt"))` under `if "lt" in …` with `except ValueError: BadRequest`
+(rd.py:198-202): a valueless `lt` is `int(None)`, a `TypeError` nothing catches — the request is
+answered 5.00 (`error 500`); no effect has happened at that point -/
+def ltOf (vs : List Val) : Except Nat (Option Int) :=
+  match popSingle vs with
+  | .error e => .error e
+  | .ok none => .ok none
+  | .ok (some none) => .error 500
+  | .ok (some (some v)) =>
+    match parseInt v with
+    | some n => .ok (some n)
+    | none => .error 400
+
+/-- What `urlsplit` refuses among the bases the driver lets through (`scheme://authority`): an
+authority with a `[` but no `]` or the reverse ("Invalid IPv6 URL").  (Bracketed hosts that are
+not address literals are refused as well; the driver keeps those out of the model.) -/
+def urlsplitOk (s : Str) : Bool := s.contains 91 == s.contains 93
+
+/-- `base` (rd.py:204-207 and the round-4 check): must have a value and be acceptable to
+`urlsplit`, else `BadRequest` -/
+def baseOf (vs : List Val) : Except Nat (Option Str) :=
+  match popSingle vs with
+  | .error e => .error e
+  | .ok none => .ok none
+  | .ok (some none) => .error 400
+  | .ok (some (some b)) => if urlsplitOk b then .ok (some b) else .error 400
 
 /-- keys `update_params` refuses: rd.py:163-172 -/
 def forbiddenInUpdate : List Str := [sEp, sD, sPage, sCount, sRt, sHref, sAnchor]
 
 /-- the remaining parameters written into `registration_parameters` (rd.py:223-228) -/
-def mergeParams (ps : List (Str × List Str)) (q : Query) : List (Str × List Str) :=
+def mergeParams (ps : List (Str × List Val)) (q : Query) : List (Str × List Val) :=
   (group q).foldl (fun acc e => aset e.1 e.2 acc) ps
 
 /-- `Registration.update_params` (rd.py:154-239).  `remote` is `network_remote.uri`
-(`none`: `AnonymousHost`).  All checks precede all effects; `error 400` is `BadRequest`.
-On success the lifetime timer is restarted (`_set_timeout` / `refresh_timeout`). -/
+(`none`: `AnonymousHost`).  All checks precede all effects; `error 400` is `BadRequest`, `error 500`
+an exception nothing catches.  On success the lifetime timer is restarted (`_set_timeout` /
+`refresh_timeout`).  The resolution of the links against the prospective base (round-4 check)
+always succeeds for the hrefs and bases the driver lets through once `urlsplitOk` holds. -/
 def updateParams (now : Nat) (reg : Reg) (remote : Option Str) (q : Query) (isInitial : Bool) :
     Except Nat Reg :=
   -- rd.py:163-172
@@ -191,10 +241,10 @@ def updateParams (now : Nat) (reg : Reg) (remote : Option Str) (q : Query) (isIn
   if (isInitial || !reg.baseExplicit) && decide (vals sBase q = []) && decide (remote = none) then
     .error 400 else
   -- rd.py:198-207
-  match popSingle (vals sLt q) parseInt with
+  match ltOf (vals sLt q) with
   | .error e => .error e
   | .ok setLt =>
-    match popSingle (vals sBase q) some with
+    match baseOf (vals sBase q) with
     | .error e => .error e
     | .ok setBase =>
       -- rd.py:209-221 (after the fix a given base is always explicit)
@@ -228,9 +278,15 @@ def wordsAux (cur : Str) : Str → List Str
 
 def words (s : Str) : List Str := wordsAux [] s
 
-/-- the `matches` closure of the lookups for a plain search value (rd.py:562-576) -/
-def valMatches (k v x : Str) : Bool :=
-  if k = sIf ∨ k = sRt then (words x).any (fun w => decide (w = v)) else decide (x = v)
+/-- the `matches` closure of the lookups for a search value that is no wildcard (rd.py:562-581):
+equality, `None == None` included (a bare `?flag` finds parameters and attributes without value);
+for `if` / `rt` any of the blank-separated words of a value (a valueless `rt` has none) -/
+def valMatches (k : Str) (v x : Val) : Bool :=
+  if k = sIf ∨ k = sRt then
+    match x with
+    | none => false
+    | some xs => (words xs).any (fun w => decide (some w = v))
+  else decide (x = v)
 
 def natStr (n : Nat) : Str := (Nat.toDigits 10 n).map Char.toNat
 
@@ -241,31 +297,47 @@ def Reg.href (r : Reg) : Str := sRegPrefix ++ natStr r.path ++ sSlash
 attribute, and a base of the form `scheme://authority`: `urljoin(base, href) = base ++ href`,
 and the implied anchor is `base ++ "/"`. -/
 def Reg.basedLinks (r : Reg) : List Link :=
-  r.links.map (fun l => { href := r.base ++ l.href, attrs := l.attrs ++ [(sAnchor, r.base ++ sSlash)] })
+  r.links.map (fun l => { href := r.base ++ l.href, attrs := l.attrs ++ [(sAnchor, some (r.base ++ sSlash))] })
 
 /-- `_link_matches` (rd.py:546-547) -/
-def linkMatches (l : Link) (k v : Str) : Bool :=
+def linkMatches (l : Link) (k : Str) (v : Val) : Bool :=
   l.attrs.any (fun a => decide (a.1 = k) && valMatches k v a.2)
 
 /-- `search_key in c.registration_parameters and any(matches(x) for x in …[search_key])` -/
-def paramMatches (r : Reg) (k v : Str) : Bool :=
+def paramMatches (r : Reg) (k : Str) (v : Val) : Bool :=
   match aget k r.params with
   | some vs => vs.any (valMatches k v)
   | none => false
 
 /-- one `search_key=search_value` condition of the endpoint lookup (rd.py:578-606) -/
-def epCond (r : Reg) (k v : Str) : Bool :=
-  if k = sHref then decide (r.href = v) || r.basedLinks.any (fun l => decide (l.href = v))
+def epCond (r : Reg) (k : Str) (v : Val) : Bool :=
+  if k = sHref then decide (some r.href = v) || r.basedLinks.any (fun l => decide (some l.href = v))
   else paramMatches r k v || r.basedLinks.any (fun l => linkMatches l k v)
 
 /-- one condition of the resource lookup (rd.py:641-665) -/
-def resCond (r : Reg) (l : Link) (k v : Str) : Bool :=
-  if k = sHref then decide (l.href = v) || decide (r.href = v)
+def resCond (r : Reg) (l : Link) (k : Str) (v : Val) : Bool :=
+  if k = sHref then decide (some l.href = v) || decide (some r.href = v)
   else linkMatches l k v || paramMatches r k v
+
+/-- the search criteria of a lookup: every option but `page` and `count` ("filtered last",
+rd.py:560-561) -/
+def criteria (q : Query) : Query := q.filter (fun e => decide (e.1 ≠ sPage ∧ e.1 ≠ sCount))
+
+/-- `_paginate` (rd.py:530-543) as far as modelled: `page` and `count` without a value are `None`
+like absent ones and select everything; a repeated one is refused (`pop_single_arg`).  (`page` /
+`count` *with* a value cut a slice out of the dict order, which is not modelled: the driver refuses
+them.) -/
+def paginateCheck (q : Query) : Except Nat Unit :=
+  match popSingle (vals sPage q) with
+  | .error e => .error e
+  | .ok _ =>
+    match popSingle (vals sCount q) with
+    | .error e => .error e
+    | .ok _ => .ok ()
 
 /-- `EndpointLookupInterface.render_get` without pagination: the registrations listed -/
 def lookupEp (s : State) (q : Query) : List Reg :=
-  s.regs.filter (fun r => q.all (fun kv => epCond r kv.1 kv.2))
+  s.regs.filter (fun r => (criteria q).all (fun kv => epCond r kv.1 kv.2))
 
 /-- the implied anchor always equals `urljoin(link.href, "/")` here, so it is elided
 (rd.py:670-677) -/
@@ -274,7 +346,7 @@ def stripAnchor (l : Link) : Link := { l with attrs := l.attrs.filter (fun a => 
 /-- `ResourceLookupInterface.render_get` without pagination -/
 def lookupRes (s : State) (q : Query) : List Link :=
   s.regs.flatMap (fun r =>
-    ((r.basedLinks.filter (fun l => q.all (fun kv => resCond r l kv.1 kv.2))).map stripAnchor))
+    ((r.basedLinks.filter (fun l => (criteria q).all (fun kv => resCond r l kv.1 kv.2))).map stripAnchor))
 
 -- requests, responses -----------------------------------------------------------------------
 
@@ -304,6 +376,11 @@ def Resp.is4xx : Resp → Bool
   | .err code => decide (400 ≤ code ∧ code < 500)
   | _ => false
 
+/-- any error answer: 4.xx, or the 5.00 the stack gives for an exception nothing catches -/
+def Resp.isError : Resp → Bool
+  | .err _ => true
+  | _ => false
+
 /-- What a request amounts to once it is validated against the current state. -/
 inductive Action
   | fail (code : Nat)
@@ -319,11 +396,10 @@ def registerReg (s : State) (remote : Option Str) (q : Query) (body : Body) : Ex
   match linksOf body with                                            -- rd.py:472
   | .error e => .error e
   | .ok links =>
-    match popSingle (vals sEp q) some with                            -- rd.py:324-326
+    match epOf (vals sEp q) with                                      -- rd.py:324-326
     | .error e => .error e
-    | .ok none => .error 400
-    | .ok (some ep) =>
-      match popSingle (vals sD q) some with                           -- rd.py:327
+    | .ok ep =>
+      match dOf (vals sD q) with                                      -- rd.py:327
       | .error e => .error e
       | .ok d =>
         let key : Key := (ep, d)
@@ -373,8 +449,14 @@ def decideOp (s : State) (op : Op) : Action :=
     | none => .fail 404
     | some reg => .reply (.regLinks reg.links)
   | .advance dt => .tick dt
-  | .lookupEp q => .reply (.endpoints (lookupEp s q))
-  | .lookupRes q => .reply (.resources (lookupRes s q))
+  | .lookupEp q =>
+    match paginateCheck q with                                        -- rd.py:610
+    | .error e => .fail e
+    | .ok _ => .reply (.endpoints (lookupEp s q))
+  | .lookupRes q =>
+    match paginateCheck q with                                        -- rd.py:678
+    | .error e => .fail e
+    | .ok _ => .reply (.resources (lookupRes s q))
 
 -- expiry --------------------------------------------------------------------------------------
 
